@@ -371,15 +371,28 @@ def run_twin(ops, fn_max, err_kind):
   vars_, obs = [], []
   lru = lib_c17.RefLRU(fn_max)
 
-  def chain(root, x, links):
-    path = ()
+  def chain(root, x0, links):
+    # `x0.<links>` is ONE nested expression: link n applied to the sub-expression `x0.<links[:n-1]>`.  An expression is
+    # evaluated from the OUTSIDE: a cached expression is looked up first; on a hit it is the stored object and its
+    # sub-expressions are not evaluated at all (so they are neither looked up nor refreshed in the LRU); on a miss the
+    # sub-expression is evaluated (recursively, with its own look-ups and insertions), the link is applied and the
+    # result is stored LAST.  With a small bound the order matters: the inner cached link is inserted before the
+    # outer one, so the outer one is the most recent entry (an inside-out loop over the links looks the inner link up
+    # first and, at capacity 1, evicts the outer entry a hit on which would have made the inner look-up unnecessary).
+    paths, path = [], ()
     for l in links:
       path = path + (jdump({k: l[k] for k in ('l', 'name', 'key', 'args') if k in l}),)
+      paths.append(path)
+
+    def ev(n):
+      if n == 0:
+        return x0
+      l = links[n - 1]
       if l.get('cache'):
-        hit, v = lru.get(_Key(root, path))
+        hit, v = lru.get(_Key(root, paths[n - 1]))
         if hit:
-          x = v
-          continue
+          return v
+      x = ev(n - 1)
       if isinstance(x, _Held):
         x = x.obj                    # a lazy result in the middle of an expression is the object itself
       if l['l'] == 'attr':
@@ -391,9 +404,10 @@ def run_twin(ops, fn_max, err_kind):
       if l.get('lazy'):
         y = _Held(y)
       if l.get('cache'):
-        lru.put(_Key(root, path), y)
-      x = y
-    return x
+        lru.put(_Key(root, paths[n - 1]), y)
+      return y
+
+    return ev(len(links))
 
   for op in ops:
     k = op['op']
